@@ -68,7 +68,7 @@ def main():
                 rate = rng.choice((4000, 4000, 8000, 11025))
                 cases.append((m, rate, fmt, rng.randrange(40, 160), None))
     ndis = 0
-    opsum = {"P": 0, "R": 0, "S": 0, "E": 0}
+    opsum = {"P": 0, "R": 0, "S": 0, "E": 0, "T": 0}
     endhits = 0
     for (m, rate, fmt, nfr, fixed_ops) in cases:
         path = os.path.join(data, m)
@@ -84,16 +84,37 @@ def main():
         fsz = [len(f[1]) // 2 if f[1] != "-" else 0 for f in frames]
         if not frames:
             continue
-        kinds = ["full", "noloop", "stop", "restart"] if fixed_ops is None else [None]
+        kinds = ["full", "noloop", "stop", "restart", "tempo"] if fixed_ops is None else [None]
         for kind in kinds * (1 if tier == "quick" or fixed_ops else 3):
-            ops = fixed_ops if fixed_ops is not None else gen_ops(rng, fsz, ended, nfr, kind)
+            ops = fixed_ops if fixed_ops is not None else gen_ops(rng, fsz, ended, nfr, "noloop" if kind == "tempo" else kind)
             if not ops:
                 continue
+            mframes = frames
+            if kind == "tempo" or (fixed_ops is not None and any(o[0] == "T" for o in ops)):
+                # xmp_set_tempo_factor between two xmp_play_buffer calls: the frames rendered so far are what they were, the following ones
+                # have the new length.  The model runs on the frame stream of a reference context that makes the same call after the same
+                # number of frames (the buffered context renders a frame only when it needs its bytes, so that number is determined by
+                # the bytes delivered plus the carry-over).
+                if fixed_ops is None:
+                    cut = rng.randrange(1, max(2, min(len(ops), 10))); fac = rng.choice(("1.37", "0.61", "2.0", "0.5", "1.01"))
+                    ops = [o for o in ops[:cut] if o[0] == "P"] + [("T", fac)] + [o for o in ops[cut:cut + 30] if o[0] == "P"]
+                ti = next(i for i, o in enumerate(ops) if o[0] == "T"); fac = ops[ti][1]
+                pre = ops[:ti]
+                pm = V.run([model], inp="".join("F %s %s\n" % (f[0], f[1]) for f in frames) + "".join("O " + " ".join(str(x) for x in o) + "\n" for o in pre) + "GO\n", timeout=300).stdout.strip().split("\n")
+                pm = [x.split() for x in pm if x and x != "DONE"]
+                if any(x[0] != "0" for x in pm): continue         # the passage ended before the call: not this kind
+                got = sum((len(x[1]) // 2 if x[1] != "-" else 0) for x in pm) + (int(pm[-1][2]) if pm else 0)
+                kf = 0; acc = 0
+                while kf < len(fsz) and acc < got: acc += fsz[kf]; kf += 1
+                if acc != got: continue
+                r2 = V.run([drv, "frames", path, str(rate), str(fmt), str(nfr * 4), str(kf), str(fac)], env=env, timeout=300)     # a factor below 1 shortens the frames: the same bytes need more of them
+                mframes = [x.split() for x in r2.stdout.strip().split("\n") if x != "END" and x]
             cin = "".join(" ".join(str(x) for x in o) + "\n" for o in ops)
             rc = V.run([drv, "buffer", path, str(rate), str(fmt)], inp=cin, env=env, timeout=300)
-            min_ = "".join("F %s %s\n" % (f[0], f[1]) for f in frames) + "".join("O " + " ".join(str(x) for x in o) + "\n" for o in ops) + "GO\n"
+            mops = [o for o in ops if o[0] != "T"]
+            min_ = "".join("F %s %s\n" % (f[0], f[1]) for f in mframes) + "".join("O " + " ".join(str(x) for x in o) + "\n" for o in mops) + "GO\n"
             rm = V.run([model], inp=min_, timeout=300)
-            co = rc.stdout.strip().split("\n")
+            co = [x for i, x in enumerate(rc.stdout.strip().split("\n")) if not (i < len(ops) and ops[i][0] == "T")]
             mo = [x for x in rm.stdout.strip().split("\n") if x != "DONE"]
             ck.count(len(ops))
             for o in ops:
@@ -110,7 +131,7 @@ def main():
                 k = next((i for i in range(min(len(co), len(mo))) if co[i] != mo[i]), min(len(co), len(mo)))
                 # shrink: keep ops up to and including the first disagreement
                 if ndis <= 3:
-                    ck.violation({"engine": "play_buffer", "module": m, "rate": rate, "format": fmt, "nframes": nfr, "ops": ops[:k + 1],
+                    ck.violation({"engine": "play_buffer", "module": m, "rate": rate, "format": fmt, "nframes": nfr, "ops": ops[:k + 1 + sum(1 for o in ops[:k + 1] if o[0] == "T")],
                                   "first_differing_op": k, "expected_model": (mo[k] if k < len(mo) else None)[:200] if k < len(mo) else None,
                                   "got_impl": co[k][:200] if k < len(co) else None,
                                   "broken": "correspondence play_buffer: chunked output / return code / carry-over differs from the frame stream (Model/PlayBuffer.v)"},
